@@ -185,7 +185,11 @@ def apploop_scenario(draw) -> Dict[str, Any]:
     instance was closed with the blocking close() from another thread (loop.run_in_executor(None, zc.close))."""
     return {'kind': 'apploop', 'jitter': draw(st.integers(0, 10**6)), 'browser': draw(st.booleans()), 'register': draw(st.booleans()),
             'short_ttl': draw(st.sampled_from([1, 2, 5])), 'close_after_ms': draw(st.sampled_from([0, 300, 1500])),
-            'linger_ms': draw(st.sampled_from([12000, 25000]))}
+            'linger_ms': draw(st.sampled_from([12000, 25000])),
+            # ... or closed with async_close() while it also carries a thread-based browser whose listener is slow (the close has
+            # to join that thread) and a registration made a moment before is still probing
+            'how': draw(st.sampled_from(['sync', 'sync', 'async'])), 'thread_browser': draw(st.booleans()),
+            'bg_register': draw(st.sampled_from([False, True, True]))}
 
 
 def check_apploop(case: Dict[str, Any]) -> Dict[str, Any]:
@@ -223,14 +227,34 @@ def check_apploop(case: Dict[str, Any]) -> Dict[str, Any]:
                 rp.wire_rr_of_ident(('SRV', name, 0, 0, 99, 'peerhost.local.'), case['short_ttl'], flush=True),
                 rp.wire_rr_of_ident(('A', 'peerhost.local.', '0a000009'), case['short_ttl'], flush=True)], 'ns': [], 'ar': []})
             w.inject(data, ('10.0.0.9', 5353))
+            tl = ThreadListener(w, 100)
+            if case.get('thread_browser'):
+                zc.add_service_listener(TYPES[1], tl)
+                ann = wire.encode({'id': 0, 'flags': 0x8400, 'qd': [], 'an': [rp.wire_rr_of_ident(('PTR', TYPES[1], f'q{k}.{TYPES[1]}'), 4500)
+                                                                              for k in range(6)], 'ns': [], 'ar': []})
+                w.inject(ann, ('10.0.0.9', 5353))
             w.sleep_ms(case['close_after_ms'])
+            bg = None
+            if case.get('bg_register') and not case['register']:
+                bg = asyncio.run_coroutine_threadsafe(holder['azc'].async_register_service(sim.make_service_info(SVCS[0])), loop)
+                w.sleep_ms(60)
             g_call = w.mark('close-call')
             exc: List[BaseException] = []
             try:
-                zc.close()                     # this thread is not the loop's thread
+                if case.get('how') == 'async':
+                    asyncio.run_coroutine_threadsafe(holder['azc'].async_close(), loop).result(JOIN_S)
+                else:
+                    zc.close()                     # this thread is not the loop's thread
             except BaseException as e:  # noqa
                 exc.append(e)
             g_done = w.mark('close-done')
+            if bg is not None:
+                try:
+                    bg.result(JOIN_S)
+                except BaseException as e:  # noqa
+                    if type(e).__name__ not in ALLOWED_EXC + ('CancelledError',):
+                        raise Violation(f'registration in flight at the close ended with {type(e).__name__}', {'exc': repr(e)},
+                                        tag='apploop-task-raised:' + type(e).__name__)
             w.sleep_ms(case['linger_ms'])      # the application's loop goes on: more than one purge period of library time
             det = {'register': case['register'], 'browser': case['browser'], 'linger_ms': case['linger_ms']}
             if exc:
@@ -248,6 +272,32 @@ def check_apploop(case: Dict[str, Any]) -> Dict[str, Any]:
             if w.errors:
                 raise Violation('exception reached the event loop: ' + str(w.errors[0].get('exception')), dict(det, errors=[(e['message'], e['exception']) for e in w.errors[:3]]),
                                 tag='loop-exception:' + str(w.errors[0].get('type')))
+            cb2 = [e for e in tl.events if e[3] > g_done]
+            if cb2:
+                raise Violation('thread-browser callback ran after the close had returned', dict(det, callback=cb2[0][1:3]), tag='apploop-thread-callback-after-close')
+            # the last word about the instance's own service (registered before, or while, the close ran) is a goodbye
+            sv = rp.Svc(SVCS[0])
+            own = {sv.ptr(), sv.srv(), sv.txt()}
+            last_word: Dict[Any, int] = {}
+            for e in list(w.trace):
+                if e['dst'] != sim.MDNS4 or e['closed']:
+                    continue
+                m = sim.decode_trace_entry(e)
+                if m is None or not m['flags'] & 0x8000:
+                    continue
+                for r in m['an'] + m['ar']:
+                    i = rp.ident_of_wire_rr(r)
+                    if i in own:
+                        last_word[i] = r['ttl']
+            alive_recs = sorted(str(i) for i, ttl in last_word.items() if ttl > 0)
+            if alive_recs:
+                raise Violation('the last thing the instance multicast about one of its own records before the close returned carried a '
+                                'non-zero TTL (announced, never withdrawn)', dict(det, records=alive_recs[:4], how=case.get('how')),
+                                tag='apploop-close-last-word')
+            if case.get('how') == 'async':
+                classes.append('app-loop-async_close-' + ('with-slow-thread-browser' if case.get('thread_browser') else 'plain'))
+            if bg is not None:
+                classes.append('app-loop-registration-in-flight-at-close')
         finally:
             loop.call_soon_threadsafe(loop.stop)
             lt.join(JOIN_S)
